@@ -54,7 +54,7 @@ def no_wrap_guard(conds, ptr, n):
     for c in conds:
         if c == want or c == want2:
             return True
-        if c[0] == "or" and want in (c[1], c[2]) and cmp_("==", n, C(0)) in (c[1], c[2]):
+        if c[0] == "or" and (want in (c[1], c[2]) or want2 in (c[1], c[2])) and cmp_("==", n, C(0)) in (c[1], c[2]):
             return True
     return False
 
